@@ -162,6 +162,58 @@ def realnet_flush(chk, quick):
         chk.sample({'part': 'kernel sockets', 'case': descs[1]})
 
 
+def reaper_part(chk, quick, rnd):
+    """The OTHER road to a close: the inactivity reaper.  On SimNet a client that does not read lets output pile up in the proxy (tunnel
+    stream / close-delimited response, upstream gone afterwards); the clock moves past --timeout and the reaper sweeps (once or several
+    times); then the client reads on.  What was queued is still owed: TraceFlush.tla judges what the client finally holds."""
+    from harness import scen, tlc
+    cases, descs = [], {}
+    for threaded in (False, True):
+        for kind in ('tunnel', 'close-delimited'):
+            for n in ([700, 6000] if quick else [300, 700, 6000, 70000]):
+                for cap in (64, 256):
+                    for sweeps in (1, 3):
+                        conv = scen.Conversation(args=['--timeout', '10'], cap=cap, threaded=threaded)
+                        c = conv.client()
+                        if kind == 'tunnel':
+                            c.write(b'CONNECT a.example:443 HTTP/1.1\r\nHost: a.example:443\r\n\r\n')
+                        else:
+                            c.write(b'GET http://a.example/x HTTP/1.1\r\nHost: a.example\r\n\r\n')
+                        conv.settle()
+                        if not conv.sim.upstreams:
+                            raise MachineryError('reaper part: no upstream connection (%s)' % kind)
+                        u = conv.sim.upstreams[0]
+                        head = len(c.got)
+                        out = (b'' if kind == 'tunnel' else b'HTTP/1.1 200 OK\r\nX-N: %d\r\n\r\n' % n) + bytes(rnd.randrange(256) for _ in range(n))
+                        u.write(out)
+                        conv.sim.quiesce(readers=[u], pumpers=[u])          # the client does not read: output piles up in the proxy
+                        u.close()
+                        conv.sim.quiesce(readers=[], pumpers=[])
+                        for _ in range(sweeps):
+                            conv.sim.world.now += 11
+                            conv.sim.reap()
+                            conv.sim.quiesce(readers=[], pumpers=[])
+                        conv.settle()                                       # now the client reads until nothing moves
+                        got = bytes(c.got[head:])
+                        cid = len(cases) + 1
+                        cases.append({'id': cid, 'prop': 'C07', 'who': 'client', 'explen': len(out), 'expsum': _sum(out), 'gotlen': len(got), 'gotsum': _sum(got),
+                                      'eof': bool(c.eof_seen), 'wait_ms': 0, 'limit_ms': 1})
+                        descs[cid] = {'mode': 'threaded' if threaded else 'threadless', 'output': kind, 'bytes': len(out), 'client_buffer': cap, 'sweeps': sweeps,
+                                      'bytes_received': len(got), 'eof': bool(c.eof_seen), 'loop_alive': conv.sim.alive}
+    results, rej = tlc.run_sharded('TraceFlush', 'TraceFlush.cfg', cases, shards=4, timeout=300)
+    m = tlc.Merged(results)
+    chk.add_tlc('TraceFlush (%d stalled clients across reaper sweeps)' % len(cases), m)
+    if m.status == 'failed':
+        raise MachineryError('TraceFlush (reaper part): ' + m.brief())
+    chk.traces(len(cases))
+    for cid, clause in rej:
+        d = descs[cid]
+        chk.violation({'part': 'reaper', 'clause': 'C07 output not delivered completely' if 'received' in clause else clause[:60], 'mode': d['mode'], 'output': d['output']},
+                      'client stalled past the timeout with output queued, %d reaper sweep(s), %s mode, %s of %d bytes, client buffer %d: %s'
+                      % (d['sweeps'], d['mode'], d['output'], d['bytes'], d['client_buffer'], clause), d)
+    chk.cov['reaper_scenarios'] = len(cases)
+
+
 def run(chk):
     quick = chk.tier == 'quick'
     seed = chk.seed
@@ -234,6 +286,8 @@ def run(chk):
                         'events': len(tr['ev']), 'last_events': tr['ev'][-8:]})
     chk.cov['model_drift_runs'] = drift_total
     realnet_flush(chk, quick)
+    import random
+    reaper_part(chk, quick, random.Random(chk.seed * 71 + 3))
     chk.assume('peers act between loop iterations only (reduction argument, DESIGN.md 2.3)',
                'SimNet socket semantics stand for the kernel; a close() with unread input is not modelled as a reset',
                'promptness bound: the close must come within 2 loop iterations after the output is out',
